@@ -1,6 +1,5 @@
 (* C02 — field resolution across layers: define, inherit, drop - never a stale field. *)
 From Connectome Require Import Values NameSet AntiSetGen GraphGen NameLevel NameFacts.
-From Connectome Require BagGen.
 From Connectome Require Bag.
 Local Open Scope list_scope.
 
@@ -74,13 +73,39 @@ Example C02_example :
 Proof. vm_compute. auto. Qed.
 Print Assumptions C02_example.
 
-(* The name-level model (Model/NameLevel.v) mirrors connect_bags, normalize_bag and EdgesBag.freeze of containers/base.py and is compared with real layer stacks.
-   The fingerprints (sha256 of the normalised body) are regenerated on every run; an edit of one of these functions re-opens this property
-   even if no sampled case shows a difference. *)
+(* BEGIN PINNED FINGERPRINTS (tools/pin_shapes.py) *)
+(* The functions and classes of /repo that hand-written parts of the model mirror (Model/VM.v, NameLevel.v, Loopback.v) and the glue around the modelled core
+   this property is anchored in: the fingerprints (sha256 of the normalised source, comments and docstrings dropped) are regenerated on every run; an edit of one
+   of them re-opens this property even if no sampled case shows a difference.  Rewritten by tools/pin_shapes.py on a tree on which every check passes. *)
+From Connectome Require BagGen GlueChainGen GlueFactoryGen.
 Theorem C02_mirrored_functions_are_the_pinned_ones :
   BagGen.shape_connect_bags = "330bc8a991173b73" /\
   BagGen.shape_normalize_bag = "7cd93bd3cd2ed163" /\
   BagGen.shape_EdgesBag_freeze = "6e09dc87af0979b4" /\
-  BagGen.shape_EdgesBag_init = "19042133648c6d76".
+  BagGen.shape_EdgesBag_init = "19042133648c6d76" /\
+  GlueChainGen.shape_class_CallableLayer = "c80fc9ed956106f0" /\
+  GlueChainGen.shape_class_Instance = "e7a645f498b26984" /\
+  GlueChainGen.shape_class_Chain = "9d9b18d30947136d" /\
+  GlueChainGen.shape_class_LazyChain = "a1c1f777b7f04bfb" /\
+  GlueChainGen.shape_connect = "32cfcae91c959073" /\
+  GlueFactoryGen.shape_class_GraphFactory = "81497759c0671ad7" /\
+  GlueFactoryGen.shape_class_SourceFactory = "1808b21b3bce3951" /\
+  GlueFactoryGen.shape_class_TransformFactory = "c44de91624ae4321" /\
+  GlueFactoryGen.shape_add_from_mixins = "75970a13392501ac" /\
+  GlueFactoryGen.shape_is_detectable = "01389bb1efb83cb2" /\
+  GlueFactoryGen.shape_items_to_container = "f7b238bfe3e856c6" /\
+  GlueFactoryGen.shape_class_FunctionBase = "2a1e9fd23a29f19d" /\
+  GlueFactoryGen.shape_class_Function = "727356a49c35f2ce" /\
+  GlueFactoryGen.shape_class_FunctionWrapper = "20f303f31715c14d" /\
+  GlueFactoryGen.shape_class_Inverse = "d803d7d513cd3b06" /\
+  GlueFactoryGen.shape_class_Positional = "ff7f4bccfea673aa" /\
+  GlueFactoryGen.shape_class_Impure = "f33a1c51c28660a4" /\
+  GlueFactoryGen.shape_class_APIMeta = "d04e35766e894328" /\
+  GlueFactoryGen.shape_class_HashByValue = "16222fab9891d910" /\
+  GlueFactoryGen.shape_class_CombinedHashByValue = "a5203dcb1319f438" /\
+  GlueFactoryGen.shape_hash_by_value = "8a4ba5e0fdeb3b7c" /\
+  GlueFactoryGen.shape_class_NodeStorage = "6d3e8d03e5bc0ef6" /\
+  GlueFactoryGen.shape_replace_annotation = "1793c6c05b9f2740".
 Proof. repeat split; reflexivity. Qed.
 Print Assumptions C02_mirrored_functions_are_the_pinned_ones.
+(* END PINNED FINGERPRINTS *)
